@@ -181,8 +181,45 @@ pub async fn reflink_async(cache: &Path, sri: &Integrity, to: &Path) -> Result<(
     reflink_unchecked(cache, sri, to)
 }
 
+/// Copying opens the destination for truncation. If the destination *is* the
+/// content file -- a hard link made by an earlier `hard_link`, or the target a
+/// `link_to` entry points at -- that would empty the cached data before it is
+/// read. The destination already holds the bytes then, so there is nothing to
+/// copy; report their length. A destination that cannot be examined (other
+/// than not existing yet) is an error: guessing could destroy the cached data.
+#[cfg(unix)]
+fn already_same_file(cpath: &Path, to: &Path) -> std::io::Result<Option<u64>> {
+    use std::os::unix::fs::MetadataExt;
+    let from = std::fs::metadata(cpath)?;
+    let dest = match std::fs::metadata(to) {
+        Ok(dest) => dest,
+        Err(e) if e.kind() == std::io::ErrorKind::NotFound => return Ok(None),
+        Err(e) => return Err(e),
+    };
+    if from.dev() == dest.dev() && from.ino() == dest.ino() {
+        Ok(Some(from.len()))
+    } else {
+        Ok(None)
+    }
+}
+
+#[cfg(not(unix))]
+fn already_same_file(_: &Path, _: &Path) -> std::io::Result<Option<u64>> {
+    Ok(None)
+}
+
 pub fn copy_unchecked(cache: &Path, sri: &Integrity, to: &Path) -> Result<u64> {
     let cpath = path::content_path(cache, sri);
+    let same = already_same_file(&cpath, to).with_context(|| {
+        format!(
+            "Failed to copy cache contents from {} to {}",
+            cpath.display(),
+            to.display()
+        )
+    })?;
+    if let Some(len) = same {
+        return Ok(len);
+    }
     std::fs::copy(cpath, to).with_context(|| {
         format!(
             "Failed to copy cache contents from {} to {}",
@@ -221,6 +258,16 @@ pub async fn copy_unchecked_async<'a>(
     to: &'a Path,
 ) -> Result<u64> {
     let cpath = path::content_path(cache, sri);
+    let same = already_same_file(&cpath, to).with_context(|| {
+        format!(
+            "Failed to copy cache contents from {} to {}",
+            cpath.display(),
+            to.display()
+        )
+    })?;
+    if let Some(len) = same {
+        return Ok(len);
+    }
     crate::async_lib::copy(&cpath, to).await.with_context(|| {
         format!(
             "Failed to copy cache contents from {} to {}",
